@@ -115,3 +115,6 @@ func VerifH_C18_serve() {
 		}
 	}
 }
+
+//verif:harness prop=C18 tier=thorough replay=interp go=sched preempt=5 require=closed,refused,served bounds="as VerifH_C18_serve with ≤5 delays"
+func VerifH_C18_serve_deep() { VerifH_C18_serve() }
